@@ -70,19 +70,44 @@ Definition shape_entries (variant : lit) : list entry :=
     pseudo child [~base], absent when the base reports None or there is no base) *)
 Definition inherited (name : lit) (d : attr_decl) : gexp :=
   GAttr (pth "~base") (s2l name) (ad_codec d) (AOpt PNone).
+
+(** the element-level setter x / y / cx / cy as a straight-line list of steps (the same steps as [pos_set]) *)
+Definition pos_steps (variant : lit) (l : level) (d : attr_decl) : list step :=
+  SCheck (ad_codec d) (ad_kind d) :: SMap pre_id ::
+  chain_steps (xfrm_chain variant ok_none ++ [l]) ++ [SSetAttr (lv_path l) (ad_attr d) (ad_codec d) (ad_kind d)].
+
+(** _InheritsDimensions._set_dimension(attr_name, value), shapes/placeholder.py:
+      inherited = [(elm_attr, self._inherited_value(name)) for name, elm_attr in elm_attrs.items()
+                   if name != attr_name and getattr(shape_elm, elm_attr) is None]
+      setattr(shape_elm, elm_attrs[attr_name], value)
+      for elm_attr, inherited_value in inherited:
+          if inherited_value is not None: setattr(shape_elm, elm_attr, inherited_value)
+    elm_attrs in dict order left, top, width, height.  The own values and the base's readings are
+    taken BEFORE the assignment (an exception of a reading ends the setter with nothing changed), the
+    assignment validates first (a refused value changes nothing), the remembered values that are not
+    None are then assigned through the same element-level setters (each validating again). *)
+Record dim := { dm_name : lit; dm_level : level; dm_decl : attr_decl }.
+Definition ph_dims : list dim :=
+  [ {| dm_name := "left";   dm_level := off_level "sp"; dm_decl := A_CT_Point2D__x |};
+    {| dm_name := "top";    dm_level := off_level "sp"; dm_decl := A_CT_Point2D__y |};
+    {| dm_name := "width";  dm_level := ext_level "sp"; dm_decl := A_CT_PositiveSize2D__cx |};
+    {| dm_name := "height"; dm_level := ext_level "sp"; dm_decl := A_CT_PositiveSize2D__cy |} ].
+Definition ph_own (m : dim) : gexp := pos_get "sp" (dm_level m) (dm_decl m).
+Definition ph_keep (m : dim) : keep :=
+  {| kp_own := ph_own m; kp_inh := inherited (dm_name m) (dm_decl m); kp_wr := pos_steps "sp" (dm_level m) (dm_decl m) |}.
+Fixpoint drop_nth {A} (i : nat) (l : list A) : list A :=
+  match l, i with
+  | [], _ => []
+  | _ :: r, O => r
+  | x :: r, S j => x :: drop_nth j r
+  end.
+Definition ph_get (m : dim) : gexp := GOrElse (ph_own m) (inherited (dm_name m) (dm_decl m)).
+Definition ph_set (i : nat) (m : dim) : prog :=
+  Keep (map ph_keep (drop_nth i ph_dims)) (pos_set "sp" (dm_level m) (dm_decl m)).
+Definition ph_entry (i : nat) (m : dim) : entry :=
+  mk "_InheritsDimensions" (dm_name m) "sp" (ph_get m) (ph_set i m).
 Definition ph_entries : list entry :=
-  [ mk "_InheritsDimensions" "left" "sp"
-       (GOrElse (pos_get "sp" (off_level "sp") A_CT_Point2D__x) (inherited "left" A_CT_Point2D__x))
-       (pos_set "sp" (off_level "sp") A_CT_Point2D__x);
-    mk "_InheritsDimensions" "top" "sp"
-       (GOrElse (pos_get "sp" (off_level "sp") A_CT_Point2D__y) (inherited "top" A_CT_Point2D__y))
-       (pos_set "sp" (off_level "sp") A_CT_Point2D__y);
-    mk "_InheritsDimensions" "width" "sp"
-       (GOrElse (pos_get "sp" (ext_level "sp") A_CT_PositiveSize2D__cx) (inherited "width" A_CT_PositiveSize2D__cx))
-       (pos_set "sp" (ext_level "sp") A_CT_PositiveSize2D__cx);
-    mk "_InheritsDimensions" "height" "sp"
-       (GOrElse (pos_get "sp" (ext_level "sp") A_CT_PositiveSize2D__cy) (inherited "height" A_CT_PositiveSize2D__cy))
-       (pos_set "sp" (ext_level "sp") A_CT_PositiveSize2D__cy) ].
+  map (fun im => ph_entry (fst im) (snd im)) (combine (seq 0 (length ph_dims)) ph_dims).
 
 (** ** presentation, slide *)
 Definition sldSz : list level := [lv "p:sldSz" (LEnsure []) ok_none].
@@ -739,12 +764,19 @@ Fixpoint prefixes_from (acc : path) (p : path) : list path :=
   | [] => []
   | x :: r => (acc ++ [x]) :: prefixes_from (acc ++ [x]) r
   end.
+Fixpoint steps_required (xs : list step) : list path :=
+  match xs with
+  | [] => []
+  | SRequire q :: r => q :: steps_required r
+  | _ :: r => steps_required r
+  end.
 Fixpoint required_paths (p : prog) : list path :=
   match p with
   | Done | Raise _ => []
   | Seq (SRequire q) k => q :: required_paths k
   | Seq _ k => required_paths k
   | If _ th el => required_paths th ++ required_paths el
+  | Keep rs k => required_paths k ++ flat_map (fun r => steps_required (kp_wr r)) rs
   end.
 (** the elements a setter dereferences without creating them *)
 Definition base_state (p : prog) : st :=
